@@ -22,7 +22,8 @@ ASSUME = [
 
 def phase_panel(run, pool):
     t = time.time()
-    cfgs = P.panel_configs(run.seed)
+    cfgs = P.panel_configs(run.seed, run.tier)
+    cfgs.sort(key=lambda c: -c.get("K", 0))  # the expensive configurations first
     n0 = run.evals
     pool.run(({"id": i, "kind": "panel", "config": c, "deadline": 240} for i, c in enumerate(cfgs)), run.absorb)
     run.phase_info["unbiasedness_panel"] = {"configs": run.evals - n0, "keys_per_config": 256, "threshold_sigma": 7.0,
@@ -177,6 +178,34 @@ def phase_crash(run, pool, progs, max_jobs):
     run.stats["env_crash_points"] += summ["env_crash"]
 
 
+def phase_crash_lines(run, pool, progs, max_jobs, cap):
+    """Crash points at SOURCE-LINE granularity (sim/crashenum.py, mode 'lines'): an asynchronous interrupt at the first and last
+    occurrence of every distinct line of cola/ that the target step executes; then all invariants, the step again without fault
+    (must equal the twin) and the rest of the history."""
+    t = time.time()
+    if len(progs) > max_jobs:
+        off = (run.seed * 13 + 5) % len(progs)
+        progs = (progs + progs)[off:off + max_jobs]
+    summ = {"programs": 0, "line_crash_points": 0, "interrupts_delivered": 0, "distinct_lines": 0, "line_events_of_twins": 0,
+            "env_crash": 0, "points_per_program_cap": cap}
+
+    def on(job, res):
+        run.absorb(job, res)
+        if res.get("status") == "ok":
+            summ["programs"] += 1
+            summ["line_crash_points"] += res.get("enumerated", 0)
+            summ["interrupts_delivered"] += res.get("raised", 0)
+            summ["distinct_lines"] += res.get("distinct_lines", 0)
+            summ["line_events_of_twins"] += res.get("nlines", 0)
+            summ["env_crash"] += res.get("env_crash", 0)
+
+    pool.run(({"id": "ln-%d" % i, "kind": "crashenum", "mode": "lines", "cap": cap, "offset": run.seed, "program": p["program"],
+               "target": p["target"], "name": p.get("name"), "deadline": 600, "run_seed": p["program"].get("run_seed")}
+              for i, p in enumerate(progs)), on)
+    summ["wall_s"] = round(time.time() - t, 1)
+    run.phase_info["line_level_crash_points"] = summ
+
+
 def run_property(prop, tier, seed, workers=None, budget=None):
     run = Run(prop, tier, seed, workers)
     known = load_known()
@@ -191,6 +220,8 @@ def run_property(prop, tier, seed, workers=None, budget=None):
                 phase_paths(run, pool)
                 phase_crash(run, pool, P.crash_programs_c17(seed), B["crash_jobs"][prop])
                 if not run.violations and not run.harness:
+                    phase_crash_lines(run, pool, P.crash_programs_c17(seed), 24 if tier == "quick" else 10**6, 40 if tier == "quick" else 200)
+                if not run.violations and not run.harness:
                     phase_threads(run, pool)
             else:
                 from . import program18 as P18
@@ -198,6 +229,9 @@ def run_property(prop, tier, seed, workers=None, budget=None):
                 if not run.violations and not run.harness:
                     P18.phase_diff(run, pool, B["diff"])
                 phase_crash(run, pool, P18.crash_programs_c18(seed, tier), B["crash_jobs"][prop])
+                if not run.violations and not run.harness:
+                    phase_crash_lines(run, pool, P18.crash_programs_c18(seed, "quick"), 60 if tier == "quick" else 10**6,
+                                      30 if tier == "quick" else 120)
                 if not run.violations and not run.harness:
                     phase_threads18(run, pool)
         seen_cls = set()
